@@ -7,7 +7,8 @@
 (*                                                                         *)
 (* Layout (abstract positions: row*10 + column, one row per source line):  *)
 (*                                                                         *)
-(*   file 1                                   file 2                       *)
+(*   file 1                                   file 2 (1030 <D4>, 1050 <S41>, *)
+(*                                            <T41> trailing the statement) *)
 (*     5  <F0d> comment row, then a blank line (detached from the clause)  *)
 (*    10  <F0>  comment row                   1010 <G0> comment row        *)
 (*    20  package clause                      1020 package clause          *)
@@ -70,23 +71,23 @@ Row(a) == CASE a = "a11" -> 60 [] a = "a12" -> 80 [] a = "a12b" -> 90 [] a = "a1
 PosOf(a, k) == Row(a) + (IF Mid(k) \/ a \in {"a2", "a12b", "b5"} THEN 5 ELSE 0)
 FileOf(p) == IF p >= 1000 THEN 2 ELSE 1
 DeclOf(a) == CASE a \in {"a11", "a12", "a12b", "a13"} -> 1 [] a = "a2" -> 2 [] a = "a31" -> 3 [] a = "b1" -> 4 [] a = "b5" -> 5
-StmtOf(a) == CASE a = "a11" -> 11 [] a \in {"a12", "a12b"} -> 12 [] a = "a13" -> 13 [] a = "a31" -> 31 [] OTHER -> 0
+StmtOf(a) == CASE a = "a11" -> 11 [] a \in {"a12", "a12b"} -> 12 [] a = "a13" -> 13 [] a = "a31" -> 31 [] a = "b1" -> 41 [] OTHER -> 0
 
 \* source order of the anchors of a file (for the once-per-file rule)
 Before(a, b, k) == FileOf(PosOf(a, k)) = FileOf(PosOf(b, k)) /\ PosOf(a, k) < PosOf(b, k)
 
-Slots == {"none", "F0", "F0d", "G0", "D1", "D2", "D3", "D5", "S11", "S12", "S13", "S31", "E1",
-          "T11", "T12a", "T12b", "T13", "T31", "TD1", "TD2", "TD5"}
+Slots == {"none", "F0", "F0d", "G0", "D1", "D2", "D3", "D4", "D5", "S11", "S12", "S13", "S31", "S41", "E1",
+          "T11", "T12a", "T12b", "T13", "T31", "T41", "TD1", "TD2", "TD5"}
 SlotPos(s) == CASE s = "F0" -> 10 [] s = "F0d" -> 5 [] s = "G0" -> 1010 [] s = "D1" -> 30 [] s = "D2" -> 140 [] s = "D3" -> 160
                 [] s = "S11" -> 50 [] s = "S12" -> 70 [] s = "S13" -> 100 [] s = "S31" -> 180 [] s = "E1" -> 120
                 [] s = "T11" -> 69 [] s = "T12a" -> 89 [] s = "T12b" -> 99 [] s = "T13" -> 119 [] s = "T31" -> 199
-                [] s = "TD1" -> 139 [] s = "TD2" -> 159 [] s = "D5" -> 1080 [] s = "TD5" -> 1099 [] s = "none" -> 0
-Trailing(s) == s \in {"T11", "T12a", "T12b", "T13", "T31", "TD1", "TD2", "TD5"}
+                [] s = "TD1" -> 139 [] s = "TD2" -> 159 [] s = "D5" -> 1080 [] s = "TD5" -> 1099 [] s = "D4" -> 1030 [] s = "S41" -> 1050 [] s = "T41" -> 1069 [] s = "none" -> 0
+Trailing(s) == s \in {"T11", "T12a", "T12b", "T13", "T31", "T41", "TD1", "TD2", "TD5"}
 
 \* structure
 DeclSpan(d) == CASE d = 1 -> <<40, 131>> [] d = 2 -> <<150, 158>> [] d = 3 -> <<170, 201>> [] d = 4 -> <<1040, 1071>>
                  [] d = 5 -> <<1090, 1098>>
-StmtSpan(s) == CASE s = 11 -> <<60, 68>> [] s = 12 -> <<80, 98>> [] s = 13 -> <<110, 118>> [] s = 31 -> <<190, 198>>
+StmtSpan(s) == CASE s = 11 -> <<60, 68>> [] s = 12 -> <<80, 98>> [] s = 13 -> <<110, 118>> [] s = 31 -> <<190, 198>> [] s = 41 -> <<1060, 1068>>
 PackagePos(f) == IF f = 1 THEN 20 ELSE 1020
 FileEnd(f) == IF f = 1 THEN 210 ELSE 1100
 LineStart(p) == (p \div 10) * 10
@@ -108,8 +109,8 @@ ListMatches(l, c) == \E i \in 1..Len(l) : Norm(l[i], c) # "" /\ Matches(Norm(l[i
 InScope(s, a, k) ==
   CASE s \in {"F0", "F0d"} -> FileOf(PosOf(a, k)) = 1
     [] s = "G0" -> FileOf(PosOf(a, k)) = 2
-    [] s = "D1" -> DeclOf(a) = 1 [] s = "D2" -> DeclOf(a) = 2 [] s = "D3" -> DeclOf(a) = 3 [] s = "D5" -> DeclOf(a) = 5
-    [] s = "S11" -> StmtOf(a) = 11 [] s = "S12" -> StmtOf(a) = 12 [] s = "S13" -> StmtOf(a) = 13 [] s = "S31" -> StmtOf(a) = 31
+    [] s = "D1" -> DeclOf(a) = 1 [] s = "D2" -> DeclOf(a) = 2 [] s = "D3" -> DeclOf(a) = 3 [] s = "D4" -> DeclOf(a) = 4 [] s = "D5" -> DeclOf(a) = 5
+    [] s = "S11" -> StmtOf(a) = 11 [] s = "S12" -> StmtOf(a) = 12 [] s = "S13" -> StmtOf(a) = 13 [] s = "S31" -> StmtOf(a) = 31 [] s = "S41" -> StmtOf(a) = 41
     [] s = "E1" -> FALSE
     [] Trailing(s) -> LineStart(PosOf(a, k)) = LineStart(SlotPos(s))
     [] OTHER -> FALSE
@@ -147,10 +148,10 @@ NextDecl(p) == LET ds == {d \in 1..5 : FileOf(DeclSpan(d)[1]) = FileOf(p) /\ Dec
 DeclEndingOnRow(p) == IF \E d \in 1..5 : LineStart(DeclSpan(d)[2]) = LineStart(p) /\ DeclSpan(d)[2] < p
                       THEN CHOOSE d \in 1..5 : LineStart(DeclSpan(d)[2]) = LineStart(p) /\ DeclSpan(d)[2] < p ELSE 0
 \* the first statement that starts after p inside declaration d, or 0
-NextStmt(p, d) == LET ss == {s \in {11, 12, 13, 31} : StmtSpan(s)[1] > p /\ StmtSpan(s)[1] >= DeclSpan(d)[1] /\ StmtSpan(s)[2] <= DeclSpan(d)[2]}
+NextStmt(p, d) == LET ss == {s \in {11, 12, 13, 31, 41} : StmtSpan(s)[1] > p /\ StmtSpan(s)[1] >= DeclSpan(d)[1] /\ StmtSpan(s)[2] <= DeclSpan(d)[2]}
                   IN IF ss = {} THEN 0 ELSE CHOOSE s \in ss : \A t \in ss : StmtSpan(s)[1] <= StmtSpan(t)[1]
 \* code before the comment on its row, inside declaration d
-CodeOnRow(p, d) == \E s \in {11, 12, 13, 31} : StmtSpan(s)[1] < p /\ LineStart(StmtSpan(s)[1]) <= LineStart(p) /\ LineStart(p) <= LineStart(StmtSpan(s)[2])
+CodeOnRow(p, d) == \E s \in {11, 12, 13, 31, 41} : StmtSpan(s)[1] < p /\ LineStart(StmtSpan(s)[1]) <= LineStart(p) /\ LineStart(p) <= LineStart(StmtSpan(s)[2])
                                                 /\ StmtSpan(s)[1] >= DeclSpan(d)[1] /\ StmtSpan(s)[2] <= DeclSpan(d)[2]
 
 ClsOf(slot) ==
